@@ -84,6 +84,8 @@ type Ctx struct {
 	cache map[string]*RuleResult
 	lits  []*ast.CompositeLit
 	gwCache map[*ssa.Global]bool
+	bce     map[string]bool
+	bceErr  error
 	evIndex map[ssa.Instruction][2]int // obligations decided by the abstract interpreter, per instruction
 
 	A *Anchors
